@@ -545,13 +545,26 @@ class SArr:
                     vals.append(int(e.const()))
                 per.append(("arr", (k.shape, [self._chk(v, n) for v in vals])))
             elif isinstance(k, (list, tuple)):
-                per.append(("arr", ((len(k),), [self._chk(int(v), n) for v in k])))
+                per.append(("arr", ((len(k),), [self._chk(self._as_pos(v), n) for v in k])))
             elif isinstance(k, bool):
                 raise SymAbort("boolean index")
             else:
-                per.append(("int", self._chk(int(k), n)))
+                per.append(("int", self._chk(self._as_pos(k), n)))
             ax += 1
         return per
+
+    @staticmethod
+    def _as_pos(v):
+        """a position given as Python int, as an exact constant, or as a NumPy integer scalar (0-d array of the exact domain)"""
+        if isinstance(v, SArr):
+            if v.size != 1:
+                raise NumpyRaise("TypeError", "only integer scalar arrays can be converted to a scalar index")
+            v = v.data[0]
+        if isinstance(v, Rat):
+            if not v.is_const() or v.const().denominator != 1:
+                raise NumpyRaise("IndexError", f"a data value ({v!r}) is used as an array position: positions must come from labels")
+            return int(v.const())
+        return int(v)
 
     @staticmethod
     def _chk(v, n):
